@@ -6,7 +6,7 @@ from ..pipe.world import World
 PROP = "C01"
 LEVEL = "exploration"
 DESIGN_REF = "DESIGN.md 4, 7 (C01)"
-BUDGETS = {"quick": 45.0, "thorough": 900.0}
+BUDGETS = {"quick": 35.0, "thorough": 900.0}
 CHUNK = 4
 MINIMISE_BUDGET = 200
 ORACLES = ("C01.",)
